@@ -172,8 +172,9 @@ class BranchHolding(R.BranchTok):
     def sym_getattr(self, it, name):
         if name == 'has':
             def has(it, node):
-                key = (node.props.get('sentence'), node.props.get('world'))
-                return any(key == k for k in self.present)
+                # Branch.has(mapping): some node agrees with every property the mapping GIVES -- a lookup without a world matches a node at any world
+                s_, w_ = node.props.get('sentence'), node.props.get('world')
+                return any(s_ == ps and (w_ is None or w_ == pw) for ps, pw in self.present)
             return Contract(has, 'Branch.has')
         return super().sym_getattr(it, name)
 
@@ -206,9 +207,10 @@ def identity_scenarios(logic, funcs):
     others = [node(PredTerm(I, (a, b))), node(PredTerm(I, (b, a))), node(PredTerm('F', (a,))), node(PredTerm('G', (c_, b)))]
     full = {(repr(PredTerm('F', (b,))), repr(w)), (repr(PredTerm('G', (c_, a))), repr(w))}
     contents = {'empty': [], 'F(b) present': [(PredTerm('F', (b,)), w)]}
+    if w is not None: contents['F(b) present at another world only'] = [(PredTerm('F', (b,)), WorldTok('w2'))]      # does not excuse F(b) at w
     out = {}
     for cname, present in contents.items():
-        want = full - {(repr(s_), repr(w_)) for s_, w_ in present}
+        want = full - {(repr(s_), repr(w_)) for s_, w_ in present if w_ == w}
         per_order = {}
         for perm in _it.permutations(range(5)):
             nodes = [([ni] + others)[i] for i in perm]
